@@ -285,6 +285,24 @@ func (rs *bodyStream) skipRest() error {
 				return SkipTrailer(rs.reader)
 			}
 
+			// The chunk data may not have arrived yet: skip what is buffered and wait for the rest.
+			for chunkSize > rs.reader.Len() {
+				skip := rs.reader.Len()
+				if skip == 0 {
+					if _, err = rs.reader.Peek(1); err != nil {
+						return err
+					}
+					continue
+				}
+				if err = rs.reader.Skip(skip); err != nil {
+					return err
+				}
+				if err = rs.reader.Release(); err != nil {
+					return err
+				}
+				chunkSize -= skip
+			}
+
 			err = rs.reader.Skip(chunkSize)
 			if err != nil {
 				return err
